@@ -28,6 +28,11 @@ import (
 	"github.com/ipfs/go-cid"
 	logging "github.com/ipfs/go-log/v2"
 	"github.com/ipni/go-libipni/announce"
+	"github.com/ipni/go-libipni/announce/gossiptopic"
+	"github.com/ipni/go-libipni/announce/message"
+	"github.com/ipni/go-libipni/announce/p2psender"
+	"github.com/libp2p/go-libp2p"
+	"github.com/libp2p/go-libp2p/core/host"
 	"github.com/ipni/go-libipni/dagsync"
 	"github.com/libp2p/go-libp2p/core/peer"
 
@@ -115,6 +120,10 @@ type env struct {
 }
 
 func newEnv(sc Scn, res *Res, npubs int, gate subdrv.GateFunc) *env {
+	return newEnvWithHost(sc, res, npubs, gate, nil)
+}
+
+func newEnvWithHost(sc Scn, res *Res, npubs int, gate subdrv.GateFunc, h host.Host, extra ...dagsync.Option) *env {
 	e := &env{res: res}
 	for i := 0; i < npubs; i++ {
 		p := subdrv.NewPub(i, sc.Seed)
@@ -129,7 +138,8 @@ func newEnv(sc Scn, res *Res, npubs int, gate subdrv.GateFunc) *env {
 	if sc.Sem > 0 {
 		opts = append(opts, dagsync.MaxAsyncConcurrency(sc.Sem))
 	}
-	e.w = subdrv.NewWorld(e.pubs, opts...)
+	opts = append(opts, extra...)
+	e.w = subdrv.NewWorldWithHost(h, e.pubs, opts...)
 	e.sched = subdrv.NewSched(e.pubs, sc.Rules, vlib.NewRand(sc.Seed).Fork("sched"), sc.Random)
 	e.sched.Install()
 	return e
@@ -258,17 +268,10 @@ func (e *env) postClose(T uint64, checkGoroutines bool) {
 		var cncl context.CancelFunc
 		lateKey := -1
 		ok, pn = subdrv.Call(watchdog, func() {
+			added := e.sched.Count("dist:added", -1)
 			lateKey = e.callStart(callSpec{K: "listen"})
 			ch, cncl = sub.OnSyncFinished()
-			st := "openchan"
-			select {
-			case _, open := <-ch:
-				if !open {
-					st = "closedchan"
-				}
-			case <-time.After(50 * time.Millisecond):
-			}
-			e.callEnd(lateKey, st)
+			e.callEnd(lateKey, e.classifyListen(ch, added))
 		})
 		if !ok || pn != nil {
 			res.fail("after-close:OnSyncFinished:blocked", fmt.Sprintf("OnSyncFinished after Close did not return within %v (panic=%v)", watchdog, pn))
@@ -278,7 +281,7 @@ func (e *env) postClose(T uint64, checkGoroutines bool) {
 				if open {
 					res.fail("after-close:OnSyncFinished:event", "a channel obtained after Close delivered a notification")
 				}
-			case <-time.After(watchdog):
+			case <-subdrv.After(watchdog):
 				res.fail("after-close:OnSyncFinished:open-channel", "a channel obtained after Close is not closed")
 			}
 			if ok, pn := subdrv.Call(watchdog, func() { cncl() }); !ok || pn != nil {
@@ -321,7 +324,7 @@ func (e *env) postClose(T uint64, checkGoroutines bool) {
 		}
 		select {
 		case <-l.done:
-		case <-time.After(watchdog):
+		case <-subdrv.After(watchdog):
 			res.fail("listener:not-closed", fmt.Sprintf("listener %d: channel not closed within %v of Close", i, watchdog))
 		}
 	}
@@ -349,6 +352,33 @@ func (e *env) postClose(T uint64, checkGoroutines bool) {
 		if g := subdrv.WaitNoLibGoroutines(400 * time.Millisecond); len(g) != 0 {
 			res.fail("goroutines:"+strings.Join(dedup(g), ","), fmt.Sprintf("library goroutines left 400 ms after Close: %v", g))
 		}
+	}
+}
+
+// classifyListen says whether a channel just returned by OnSyncFinished is registered with
+// the distributor ("openchan") or was handed back already closed ("closedchan"), from evidence
+// rather than from elapsed time: the distributor passes dist:added after taking the
+// registration; a registration that gave up returns a channel that gets closed.  A notification
+// arriving on it also shows that it is registered (a sync that finished just before may be
+// forwarded before or after the registration: both orders are legitimate).
+func (e *env) classifyListen(ch <-chan dagsync.SyncFinished, addedBefore int) string {
+	deadline := subdrv.NewDeadline(watchdog)
+	for {
+		if e.sched.Count("dist:added", -1) > addedBefore {
+			return "openchan"
+		}
+		select {
+		case _, open := <-ch:
+			if !open {
+				return "closedchan"
+			}
+			return "openchan"
+		default:
+		}
+		if deadline.Expired() {
+			return "undecided"
+		}
+		time.Sleep(100 * time.Microsecond)
 	}
 }
 
@@ -475,13 +505,13 @@ func runInject(sc Scn) (res Res) {
 			// an explicit sync that passed the gate before Close started must be allowed to finish
 			res.fail("explicit-sync-not-finished:"+sc.Point, fmt.Sprintf("explicit sync held at %s when Close started did not complete: %v", sc.Point, err))
 		}
-	case <-time.After(2 * watchdog):
+	case <-subdrv.After(2 * watchdog):
 		res.fail("sync:blocked:"+sc.Point, "the sync call did not return after Close")
 	}
 	if regDone != nil {
 		select {
 		case <-regDone:
-		case <-time.After(watchdog):
+		case <-subdrv.After(watchdog):
 			res.fail("register-racing-close:blocked:"+sc.Point, "OnSyncFinished racing with Close did not return / its channel was not closed")
 		}
 	}
@@ -644,6 +674,82 @@ func runCleanerOnce(sc Scn) (res Res) {
 	return
 }
 
+// runPubsubClose: a subscriber listening on a gossip topic; an announcement published over
+// pubsub is being handled by the receiver's watcher (parked inside the allow-peer callback,
+// i.e. after it took the message off the subscription and before announceCheck takes
+// announceMutex) when Close is called; the callback is released once doClose has reached
+// receiver.Close().  Close must return within the bound and every post-condition hold.
+func runPubsubClose(sc Scn) (res Res) {
+	res.Sc = sc
+	t0 := time.Now()
+	h, err := libp2p.New(libp2p.ListenAddrStrings("/ip4/127.0.0.1/tcp/0"), libp2p.DisableRelay())
+	if err != nil {
+		res.fail("harness:host", err.Error())
+		return
+	}
+	defer h.Close()
+	topicName := fmt.Sprintf("/verif/c15/%d/%d", sc.Seed, sc.Closers)
+	topic, cancelPubsub, err := gossiptopic.MakeTopic(h, topicName)
+	if err != nil {
+		res.fail("harness:topic", err.Error())
+		return
+	}
+	defer cancelPubsub()
+	entered, release := make(chan struct{}), make(chan struct{})
+	var once, relOnce sync.Once
+	allow := func(p peer.ID) bool {
+		once.Do(func() {
+			close(entered)
+			<-release
+		})
+		return true
+	}
+	doRelease := func() { relOnce.Do(func() { close(release) }) }
+	defer doRelease()
+	e := newEnvWithHost(sc, &res, 1, nil, h, dagsync.RecvAnnounce(topicName, announce.WithTopic(topic), announce.WithAllowPeer(allow)))
+	defer e.cleanup()
+	defer doRelease()
+	e.tr.off = true // the model's watcher has no allow-peer step: this run is not replayed
+	p := e.pubs[0]
+	e.listen(false)
+	sender, err := p2psender.New(nil, "", p2psender.WithTopic(topic))
+	if err != nil {
+		res.fail("harness:sender", err.Error())
+		return
+	}
+	m := message.Message{Cid: p.Chain[1]}
+	m.SetAddrs(p.Info().Addrs)
+	if err := sender.Send(context.Background(), m); err != nil {
+		res.fail("harness:send", err.Error())
+		return
+	}
+	select {
+	case <-entered:
+		res.Reached = true
+	case <-subdrv.After(2 * watchdog):
+		return // the gossip message did not come back to this host: nothing observed
+	}
+	type cr struct {
+		T  uint64
+		ok bool
+	}
+	closed := make(chan cr, 1)
+	go func() { T, ok := e.closeN(sc.Closers); closed <- cr{T, ok} }()
+	// let doClose get to receiver.Close(), then let the watcher go on
+	e.sched.WaitFor("close:exp-waited", -1, 1, watchdog)
+	time.Sleep(5 * time.Millisecond)
+	doRelease()
+	r := <-closed
+	if !r.ok {
+		res.Sigs, res.Failures = nil, nil
+		res.fail("close:blocked:pubsub-announce-in-flight", fmt.Sprintf("a gossip announcement was being handled by the receiver's watcher (in the allow-peer callback) when Close started; the callback returned, but Close (%d callers) did not return within %v", sc.Closers, watchdog))
+	} else {
+		e.postClose(r.T, true)
+	}
+	res.DurMs = float64(time.Since(t0).Microseconds()) / 1000
+	return
+}
+
 // runAfterClose: nothing but Close, then the entry points.
 func runAfterClose(sc Scn) (res Res) {
 	res.Sc = sc
@@ -759,8 +865,8 @@ func runSeq(sc Scn) (res Res) {
 	p := e.pubs[0]
 	head := 1
 	var open []*listener
-	short := 300 * time.Millisecond
 	expClosed := false
+	nAdded, nRemoved := 0, 0 // registrations / removals the distributor must be seen to have made
 	for _, op := range sc.Ops {
 		out := "?"
 		switch op {
@@ -817,15 +923,11 @@ func runSeq(sc Scn) (res Res) {
 			}
 		case "listen":
 			l := &listener{done: make(chan struct{})}
-			ok, _ := subdrv.Call(short+100*time.Millisecond, func() {
+			ok, _ := subdrv.Call(2*watchdog, func() {
+				added := e.sched.Count("dist:added", -1)
 				l.key = e.callStart(callSpec{K: "listen"})
 				l.ch, l.cancel = e.w.Sub.OnSyncFinished()
-				st := "openchan"
-				select {
-				case _, isOpen := <-l.ch:
-					st = pick(isOpen, "event", "closedchan")
-				case <-time.After(30 * time.Millisecond):
-				}
+				st := e.classifyListen(l.ch, added)
 				e.callEnd(l.key, st)
 				out = st
 			})
@@ -838,6 +940,7 @@ func runSeq(sc Scn) (res Res) {
 			}
 			if out == "openchan" {
 				open = append(open, l)
+				nAdded++
 			}
 		case "cancel":
 			if len(open) == 0 {
@@ -846,12 +949,15 @@ func runSeq(sc Scn) (res Res) {
 			}
 			l := open[len(open)-1]
 			open = open[:len(open)-1]
-			ok, _ := subdrv.Call(short, func() {
+			ok, _ := subdrv.Call(watchdog, func() {
 				k := e.callStart(callSpec{K: "cancel", LKey: l.key})
 				l.cancel()
 				e.callEnd(k, "nil")
 			})
 			out = pick(ok, "nil", "blocked")
+			if ok && !expClosed {
+				nRemoved++
+			}
 		}
 		res.Outcomes = append(res.Outcomes, out)
 		if out == "blocked" {
@@ -861,8 +967,10 @@ func runSeq(sc Scn) (res Res) {
 	res.Reached = true
 	res.Sc.Ops = sc.Ops[:len(res.Outcomes)]
 	// let the distributor take what has been sent, then convert the log
-	e.sched.WaitFor("dist:forward", -1, e.sched.Count("event:sent", -1), 300*time.Millisecond)
-	time.Sleep(2 * time.Millisecond)
+	// (evidence, not elapsed time: the distributor passes its yield points after the rendez-vous)
+	e.sched.WaitFor("dist:forward", -1, e.sched.Count("event:sent", -1), watchdog)
+	e.sched.WaitFor("dist:added", -1, nAdded, watchdog)
+	e.sched.WaitFor("dist:removed", -1, nRemoved, watchdog)
 	if len(res.Failures) == 0 {
 		res.Trace, _ = e.buildTrace(sc.Sem, expClosed)
 	}
@@ -889,6 +997,8 @@ func run(sc Scn) Res {
 		return runAfterClose(sc)
 	case "cleaner":
 		return runCleaner(sc)
+	case "pubsub-close":
+		return runPubsubClose(sc)
 	case "mix":
 		return runMix(sc)
 	case "seq":
@@ -918,6 +1028,8 @@ func genAll(c *vlib.Ctx) (targeted []Scn, bulk []Scn) {
 	targeted = append(targeted, Scn{Kind: "dist-held", Seed: c.Seed})
 	targeted = append(targeted, Scn{Kind: "after-close", Seed: c.Seed + 1, Closers: 4})
 	targeted = append(targeted, Scn{Kind: "cleaner", Seed: c.Seed})
+	targeted = append(targeted, Scn{Kind: "pubsub-close", Seed: c.Seed, Closers: 1})
+	targeted = append(targeted, Scn{Kind: "pubsub-close", Seed: c.Seed, Closers: 2})
 	// Close injected at every yield point
 	for _, k := range []int{1, 2, 4} {
 		for _, pt := range explicitPoints {
